@@ -1435,13 +1435,29 @@ def _nest_descriptor(d: int) -> list[str]:
             "tr(" + K1[2:] + "," + "{" * d, "wsh(" + "and_v(v:pk(" + K1 + ")," * d + "1" + ")" * d + ")", "wsh(" + "or_i(0," * d + "1" + ")" * d + ")",
             "(" * d, ")" * d, "[" * d + "]" * d, "sh(" * d, "pkh(" + K1 + "/0" * d + ")", "pkh([d34db33f" + "/0h" * d + "]" + K1 + ")", "wsh(" + "a:" * d + "pk(" + K1 + "))",
             "wsh(" + "n" * d + ":pk(" + K1 + "))", "wsh(thresh(1,pk(" + K1 + ")" + ",s:pk(" + K2 + ")" * 0 + ",sdv:older(1)" * min(d, 2000) + "))",
-            "wsh(multi(1" + ("," + K1) * min(d, 3000) + "))", "tr(" + K1[2:] + "," + "{" * d + "pk(" + K2[2:] + ")" + "}" * d + ")"]
+            "wsh(multi(1" + ("," + K1) * min(d, 3000) + "))", "tr(" + K1[2:] + "," + "{" * d + "pk(" + K2[2:] + ")" + "}" * d + ")",
+            # the same depths through the other argument positions: a bound kept along the first branch only is no bound
+            "tr(" + K1[2:] + "," + ("{pk(" + K2[2:] + "),") * d + "pk(" + K2[2:] + ")" + "}" * d + ")",
+            "tr(" + K1[2:] + "," + _zigzag("pk(" + K2[2:] + ")", d) + ")",
+            "wsh(" + "and_b(" * d + "pk(" + K1 + ")" + ",a:1)" * d + ")", "wsh(" + "or_i(" * d + "0" + ",1)" * d + ")",
+            "wsh(" + "andor(1," * d + "1" + ",1)" * d + ")", "wsh(" + "andor(" * d + "1" + ",1,1)" * d + ")",
+            "sh(wsh(" + "or_d(pk(" + K1 + ")," * d + "0" + ")" * d + "))"]
+
+
+def _zigzag(leaf: str, d: int) -> str:
+    s = leaf
+    for i in range(d):
+        s = "{" + leaf + "," + s + "}" if i % 2 else "{" + s + "," + leaf + "}"
+    return s
 
 
 def _nest_miniscript(d: int) -> list[str]:
     return ["and_v(v:pk(" + K1 + ")," * d + "1" + ")" * d, "or_i(0," * d + "1" + ")" * d, "andor(1,1," * d + "1" + ")" * d, "t" * d + ":1", "a:" * d + "1",
             "n" * d + ":1", "l" * d + ":0", "(" * d, ")" * d, "and_v(" * d, "or_b(1,s:" * d + "1" + ")" * d, "thresh(1," * d + "1" + ")" * d, "j:" * d, ":" * d,
-            "thresh(1" + ",1" * min(d, 5000) + ")", "multi(1" + ("," + K1) * min(d, 3000) + ")", "or_d(pk(" + K1 + ")," * d + "0" + ")" * d]
+            "thresh(1" + ",1" * min(d, 5000) + ")", "multi(1" + ("," + K1) * min(d, 3000) + ")", "or_d(pk(" + K1 + ")," * d + "0" + ")" * d,
+            # every argument position, not the first or the last alone
+            "and_b(" * d + "1" + ",a:1)" * d, "or_i(" * d + "0" + ",1)" * d, "andor(" * d + "1" + ",1,1)" * d, "andor(1," * d + "1" + ",1)" * d,
+            "or_b(" * d + "0" + ",a:0)" * d, "thresh(1,a:" * 0 + "thresh(1," * 0 + "and_v(" * d + "v:1" + ",1)" * d, "thresh(2,1,a:" * d + "1" + ",a:1)" * d]
 
 
 def _nest_path(d: int) -> list[str]:
